@@ -545,6 +545,38 @@ def part_accepted_compiles(chk, thorough):
         msg = re.sub(r"g\d+::", "", r.diags[0]["message"]) if r.diags else "?"
         chk.violation("rustc: derive(%s) accepts a degenerate shape but the expansion %s: %s" % (c.meta["derive"], "does not compile" if r.compile == "error" else "warns", re.sub(r"`[^`]*`", "`..`", msg)[:80]),
                       c.meta["src"], "; ".join(re.sub(r"g\d+::", "", d["message"]) for d in r.diags[:4]) + "\n" + (r.diags[0]["rendered"][:900] if r.diags else ""))
+    # ---- the same items generated by a `macro_rules!` that receives the field types as `$t:ty` fragments: the derive then sees every
+    # such type inside an invisible group (`syn::Type::Group`).  Oracle: the macro-generated twin of a program that compiles, compiles.
+    mcases = []
+    specials = [("From", "#[from($t1)] struct S($t1);"), ("From", "#[from($t3)] struct S($t1, $t2);"), ("Into", "#[into($t3)] struct S($t1, $t2);"), ("Into", "#[into($t1)] struct S($t1);"),
+                ("TryInto", "enum S { A($t1), B(%s), Cc }" % _C1), ("TryInto", "#[try_into(owned, ref)] enum S { A($t1, $t2), B(%s, %s) }" % (_C1, _C2)),
+                ("AsRef", "#[as_ref($t1)] struct S($t1);"), ("AsRef", "#[as_ref($t1)] struct S(%s);" % _C1), ("AsMut", "#[as_mut($t1)] struct S(%s);" % _C1),
+                ("From", "enum S { #[from($t1)] A(%s), B($t2) }" % _C1), ("Constructor", "struct S { a: $t1, b: $t3 }"), ("TryFrom", "#[try_from(repr)] #[repr(u8)] enum S { A = 1, B($t1) }"),
+                ("Error", "#[derive(Debug, derive_more::Display)] #[display(\"e\")] struct S { source: $t1, other: $t2 }"), ("Display", "#[display(\"{_0} {_1}\")] struct S($t1, $t2);"),
+                ("Debug", "struct S<T>($t1, T);"), ("Deref", "struct S { #[deref] a: $t1, b: $t2 }"), ("IntoIterator", "struct S(#[into_iterator(owned, ref)] $t1, $t2);")]
+    def macro_twin(cid, d, prefix, item):
+        body = "%s#[derive(derive_more::%s)] %s" % (prefix, d, item)
+        mod = "#[allow(unused_imports)] use super::*;\nmacro_rules! mk { ($t1:ty, $t2:ty, $t3:ty) => { %s } }\nmk!(%s, %s, (%s, %s));" % (body, _C1, _C2, _C1, _C2)
+        return Case(cid, mod, has_run=False, meta=dict(derive=d, src="macro_rules! mk { ($t1:ty, $t2:ty, $t3:ty) => { %s } } mk!(%s, %s, (%s, %s));" % (body, _C1, _C2, _C1, _C2)))
+    for c in cases:
+        if results[c.cid].compile == "ok" and (_C1 in c.meta["twin"] or _C2 in c.meta["twin"]) and "decorate" not in c.meta:
+            item = c.meta["twin"].replace(_C1, "$t1").replace(_C2, "$t2")
+            mcases.append(macro_twin("m%d" % len(mcases), c.meta["derive"], PREREQ.get(c.meta["derive"], ""), item))
+    for d, item in specials:
+        mcases.append(macro_twin("m%d" % len(mcases), d, "", item))
+    meng = CompileEngine("C01M", header=HEADER, prelude=PRELUDE, mode="check", per_bin=max(20, len(mcases) // 16 + 1))
+    mres = meng.run_cases(mcases)
+    for c in mcases:
+        r = mres[c.cid]
+        chk.count(states=1, transitions=1)
+        if r.compile == "ok":
+            chk.outcome("macro-generated-twin-compiles")
+            continue
+        chk.outcome("macro-generated-twin-%s" % r.compile)
+        msg = re.sub(r"m\d+::", "", r.diags[0]["message"]) if r.diags else "?"
+        chk.violation("rustc: derive(%s) on an item whose field types arrive as `$t:ty` fragments %s: %s" % (c.meta["derive"], "does not compile" if r.compile == "error" else "warns", re.sub(r"`[^`]*`", "`..`", msg)[:80]),
+                      c.meta["src"], "; ".join(re.sub(r"m\d+::", "", d["message"]) for d in r.diags[:4]) + "\n" + (r.diags[0]["rendered"][:900] if r.diags else ""))
+    chk.part("macro_generated_items", programs=len(mcases), oracle="the twin of a compiling program, generated by a macro_rules! that passes the field types (and listed types) as $t:ty fragments, compiles")
     chk.part("degenerate_shapes", shapes=EMPTY_SHAPES, plain_shapes=PLAIN_SHAPES, exotic_field_types=EXOTIC_TYPES, type_agnostic_derives=AGNOSTIC, derives=len(derives), pairs=len(pairs), accepted_and_compiled=len(cases),
              oracle="accepted in-process => compiles under #![deny(warnings)]; a diagnostic is the other allowed outcome (totality itself is C18)")
 
